@@ -259,6 +259,41 @@ def Tree.pidsList : List (Tree α) → List Nat
   | t :: ts => Tree.pids t ++ Tree.pidsList ts
 end
 
+/-! ### executable check of the tree invariant (run by the driver on the REAL tree dumped from
+`pysph.base.octree` on every run; `Lemmas/NnpsTree.lean` proves it implies `TreeInv`) -/
+
+/-- `p` lies in the closed cube `[c, c+len]^3` (`a ≤ b` written `¬ b < a`) -/
+def inCubeB (c : Pt α) (len : α) (p : Pt α) : Bool :=
+  !(decide (p.x < c.x)) && !(decide (c.x + len < p.x)) &&
+  !(decide (p.y < c.y)) && !(decide (c.y + len < p.y)) &&
+  !(decide (p.z < c.z)) && !(decide (c.z + len < p.z))
+
+/-- every listed particle exists, lies in the node's closed cube and has `h ≤ hmax` (`c.h`) -/
+def nodeOkB (src : List (Pt α)) (c : Pt α) (len : α) (pids : List Nat) : Bool :=
+  pids.all (fun j =>
+    match src[j]? with
+    | some p => inCubeB c len p && !(decide (c.h < p.h))
+    | none => false)
+
+mutual
+def Tree.invB (src : List (Pt α)) : Tree α → Bool
+  | Tree.leaf c len pids => nodeOkB src c len pids
+  | Tree.node c len ch => nodeOkB src c len (Tree.pidsList ch) && Tree.invListB src ch
+def Tree.invListB (src : List (Pt α)) : List (Tree α) → Bool
+  | [] => true
+  | t :: ts => Tree.invB src t && Tree.invListB src ts
+end
+
+mutual
+/-- number of nodes -/
+def Tree.size : Tree α → Nat
+  | Tree.leaf _ _ _ => 1
+  | Tree.node _ _ ch => 1 + Tree.sizeList ch
+def Tree.sizeList : List (Tree α) → Nat
+  | [] => 0
+  | t :: ts => Tree.size t + Tree.sizeList ts
+end
+
 /-- neighbours returned by the tree query -/
 def treeNbrs (rs : α) (src : List (Pt α)) (q : Pt α) (t : Tree α) : List Nat :=
   nbrsOf rs src q (Tree.cands rs q t)
